@@ -6,7 +6,7 @@ from typing import Any, Dict, List
 
 from models.ops import OPS, lattice
 
-DEV = {"quick": 2, "thorough": 3}
+DEV = {"quick": 2, "thorough": 4}
 
 
 def lattice_cases(tier: str, seed: int, d: int = 0, **kw: Any) -> List[Dict[str, Any]]:
